@@ -36,6 +36,64 @@ def dump(v):
     return {"$unknown": repr(v)}
 
 
+import collections.abc
+import typing
+
+
+def typed(v, t, path, errs):
+    """C03 oracle on the real object graph against the resolved annotations."""
+    NoneT = type(None)
+    o = typing.get_origin(t)
+    if t is typing.Any:
+        return True
+    if isinstance(t, type) and not attrs.has(t) and not issubclass(t, (enum.Enum, int, str, float, bool)) and t is not NoneT:
+        return True          # opaque class (LSPObject): uninterpreted JSON allowed
+    if t is NoneT:
+        return v is None
+    if o is typing.Union:
+        ok = any(typed(v, a, path, []) for a in typing.get_args(t))
+        if not ok:
+            errs.append([path, "union", type(v).__name__, str(t)[:100]])
+        return ok
+    if o in (collections.abc.Sequence, list):
+        if not isinstance(v, (list, tuple)):
+            errs.append([path, "seq", type(v).__name__])
+            return False
+        return all(typed(x, typing.get_args(t)[0], path + "[]", errs) for x in v)
+    if o is dict:
+        if not isinstance(v, dict):
+            errs.append([path, "dict", type(v).__name__])
+            return False
+        return all(typed(x, typing.get_args(t)[1], path + "{}", errs) for x in v.values())
+    if o is tuple:
+        if not isinstance(v, tuple) or len(v) != len(typing.get_args(t)):
+            errs.append([path, "tuple", type(v).__name__])
+            return False
+        return all(typed(x, a, path + "()", errs) for x, a in zip(v, typing.get_args(t)))
+    if o is typing.Literal:
+        return v in typing.get_args(t)
+    if isinstance(t, type) and issubclass(t, enum.Enum):
+        ok = isinstance(v, t) or any(v == m.value and type(v) is type(m.value) for m in t)
+        if not ok:
+            errs.append([path, "enum", repr(v)[:60]])
+        return ok
+    if isinstance(t, type) and attrs.has(t):
+        if not isinstance(v, t):
+            errs.append([path, "class", type(v).__name__, t.__name__])
+            return False
+        return all(typed(getattr(v, a.name), a.type, path + "." + a.name, errs) for a in attrs.fields(t))
+    if t is float:
+        return isinstance(v, float)
+    if t is bool:
+        return isinstance(v, bool)
+    if t is int:
+        return isinstance(v, int)
+    if t is str:
+        return isinstance(v, str)
+    errs.append([path, "?", str(t)[:80]])
+    return False
+
+
 def fl(j):
     """floats -> exact ratio marker (JSON text would round-trip anyway, this keeps the harness independent of it)"""
     if isinstance(j, enum.Enum) and isinstance(j, (str, int)):
@@ -67,9 +125,16 @@ def main():
             t = target(c["target"])
             o = conv.structure(c["input"], t)
         except BaseException as e:  # noqa
-            res.append({"ok": False, "err": type(e).__name__})
+            res.append({"ok": False, "err": type(e).__name__, "msg": str(e)[:160]})
             continue
         r = {"ok": True, "dump": dump(o)}
+        errs = []
+        try:
+            r["typed"] = bool(typed(o, t, c["target"], errs))
+        except BaseException as e:  # noqa
+            r["typed"] = False
+            errs.append(["", "typed-check-raised", repr(e)[:100]])
+        r["type_errors"] = errs[:3]
         try:
             r["unstr"] = fl(conv.unstructure(o, t))
             r["unstr_ok"] = True
